@@ -52,7 +52,7 @@ OP_RANGE = (1200, 1299)
 
 
 def _e(cls, v):
-    return cls(v) if v in (0, 1) else v
+    return core.enum_or_int(cls, v) if v in (0, 1) else v
 
 
 def _conf(ids, flags):
